@@ -39,11 +39,11 @@ let ty_of (name0 : string) : ty * string =
 (* stored value: integers and decimal64 as Z, boolean as 0/1 *)
 type v = VZ of z | VB of bool
 
-let store (name : string) (s : n list) (nxt : n) : (ty * v) option =
+let store (name : string) (s : n list) : (ty * v) option =
   let (t, nm) = ty_of name in
   match t with
   | TInt it -> (match int_store it (parts_of nm) s with Ok x -> Some (t, VZ x) | Err _ -> None)
-  | TDec fd -> (match dec64_store (nat_of_int fd) (parts_of nm) s nxt with Ok x -> Some (t, VZ x) | Err _ -> None)
+  | TDec fd -> (match dec64_store (nat_of_int fd) (parts_of nm) s with Ok x -> Some (t, VZ x) | Err _ -> None)
   | TBool -> (match bool_store s with Ok x -> Some (t, VB x) | Err _ -> None)
   | TNone -> None
 
@@ -68,22 +68,21 @@ let sortc (t : ty) (a : v) (b : v) : comparison =
   | TBool, VB x, VB y -> bool_sort x y
   | _ -> Eq
 
-let n0 = n_of_int 0
-
 let run (f : string list) : string =
   match f with
   | [("intv" | "decv" | "boolv"); name; h] ->
-      (match store name (unhex h) n0 with None -> "E" | Some (t, x) -> hex (canon t x))
-  | ["decvn"; name; h; nx] ->
-      let nb = match unhex nx with [] -> n0 | b :: _ -> b in
-      (match store name (unhex h) nb with None -> "E" | Some (t, x) -> hex (canon t x))
+      (match store name (unhex h) with None -> "E" | Some (t, x) -> hex (canon t x))
+  | ["decvn"; name; h; _] ->
+      (* the bytes placed after the value are not an input of the model: since /repo commits f731599 and
+         f933623 lyplg_type_parse_dec64 reads nothing at or beyond value_len, so the answer is that of decv *)
+      (match store name (unhex h) with None -> "E" | Some (t, x) -> hex (canon t x))
   | ["cmp"; name; a; b] ->
-      (match store name (unhex a) n0, store name (unhex b) n0 with
+      (match store name (unhex a), store name (unhex b) with
        | Some (t, x), Some (_, y) -> if equal t x y then "0" else "1"
        | _ -> "E")
   | ["sort"; name; a; b] ->
       (* a is inserted first; b goes after the last element that is not greater than b *)
-      (match store name (unhex a) n0, store name (unhex b) n0 with
+      (match store name (unhex a), store name (unhex b) with
        | Some (t, x), Some (_, y) ->
            (match sortc t y x with
             | Lt -> hex (canon t y) ^ " " ^ hex (canon t x)
